@@ -2,4 +2,5 @@ import TinyFlux.Audit.Tool
 import TinyFlux.Props.C07
 import TinyFlux.Props.C07State
 import TinyFlux.Props.C07Witness
+import TinyFlux.Props.C07Mirror
 #audit TinyFlux.Props.C07
